@@ -13,8 +13,19 @@ Monitor shape: independent slow reference observed next to every execution.
 * proximity: project-and-clamp closest point on every triangle + min over all triangles; sign
   from the winding number (documented: inside positive, outside negative).
 
-Scale class (extent of the mesh: 1e-2, 1, 1e2) is part of every case tag and every key; meshes that
-contain zero-area faces carry `degenerate_faces` in the tag and `faces=degenerate` in the key.
+Scale class (extent of the mesh: 1e-2, 1, 1e2; round 4: 1e-5 and 1e12 for a few meshes whose
+triangles stay 10x above the library's documented zero-area threshold) is part of every case tag
+and every key; meshes that contain zero-area faces carry `degenerate_faces` in the tag and
+`faces=degenerate` in the key.
+
+Round 4 input classes (each with its own class token in the key, derived from a constant of the
+source with a 10x band): layered parts crossed more than max_hits = 20 times by one line
+(`gap=beyond_20_hits`, `gap=over_20_crossings`), solids touching along a wall - two triangles crossed
+at one point (`gap=coincident`, `region=coincident_faces`), origins 1e5 / 1e7 mesh sizes away
+(`class=origin_beyond_float32`), extent 1e-5 against the absolute 1e-6 forward slack
+(`class=crossing_behind_origin_within_abs_slack`, `gap=within_abs_forward_slack`), extent 1e12
+against the int64 grid of the duplicate filter (`gap=merge_grid_int64_overflow`) and the absolute
+pad of ray_bounds (`class=` / `gap=bounding_plane_face_pad_below_float_spacing`).
 
 embree multi-hit advances the origin by `1e-4 * (100 / mesh.scale)` world units after each hit
 (ray_pyembree.py:165).  A later hit closer than that to the previous one cannot be found.  The
@@ -35,11 +46,14 @@ PROP = "C12"
 LEVEL = "exploration"
 RULE = (
     "closed meshes (box, octahedron, genus-1 frame, L-prism, tetrahedra, lattice hulls, polycubes, "
-    "multi-body / nested / overlapping shells, icosphere, slabs, spike with a far vertex), normalised "
-    "to extent S in {1e-2, 1, 1e2}, translated by 0 or 1e3, half of them rotated; per mesh: rays "
-    "(origin inside bounds / outside / far / mesh behind; direction axis-aligned / oblique / aimed / "
-    "non-unit / 50-2000 long / 1e-3 and 1e-7 short), containment points and proximity points (random, "
-    "near vertex, near edge, near face, far).  40 % of the meshes are asked again after a query - vertex "
+    "multi-body / nested / overlapping shells, icosphere, slabs, spike with a far vertex, a stack of 21 plates, "
+    "boxes touching along a wall), normalised "
+    "to extent S in {1e-2, 1, 1e2} (box, octahedron, L-prism, tetrahedron, nested cavity, hull also 1e-5 and 1e12 "
+    "with use_embree=False), translated by 0 or 1e3, half of them rotated (plate stacks also with their axis along "
+    "the two containment test directions); per mesh: rays "
+    "(origin inside bounds / outside / far / 1e5 and 1e7 sizes away / mesh behind; direction axis-aligned / oblique / aimed / "
+    "along a face normal / non-unit / 50-2000 long / 1e-3 and 1e-7 short), containment points and proximity points (random, "
+    "near vertex, near edge, near face, half way between two crossings of a line, far).  40 % of the meshes are asked again after a query - vertex "
     "edit history (the first read after the edit is one of rays / contains / on_surface / closest_point / "
     "closest_point_naive / signed_distance / nearby_faces); 30 % are asked again with 1-3 zero-area faces "
     "(repeated index, point, collinear, duplicated vertex) inserted into the face list.  One case = one ray or one query point on one mesh; distinct = distinct (mesh bytes, query "
@@ -83,17 +97,34 @@ ASSUMPTIONS = [
     "embree is judged only on rays / points that pass the wider float32 margins (1e-3*extent)",
     "the embree origin-advance distance 1e-4*100/mesh.scale is read from the source to define the "
     "gap classes; the default containment direction is read from ray_util.contains_points",
+    "round 4 classes are derived from constants read from the source: max_hits=20, forward slack 1e-6, "
+    "tol.merge=1e-8 grid of intersects_location (int64 limit 9.2e10), ray_bounds pad 1e-5, float32 origins",
+    "at extents 1e-5 / 1e12 the embree engine is asked for first / single / any hits only (its multi-hit "
+    "advance distance, findings (a)/(d), is 1e3 resp. 1e-20 extents there); mesh.ray is the native engine",
+    "two crossings of one ray 0 < gap < 10*tol.merge apart are one location by the documented grid of "
+    "intersects_location: not judged (reachable at extent 1e-5 only)",
 ]
 EXHAUSTIVE = {"quick": False, "thorough": False}
 
 SCALES = (1e-2, 1.0, 1e2)
+# extreme sizes (round 4): a part of a few micrometres modelled in metres / coordinates far above
+# 1e8.  The small one stays 10x above the library's documented resolution (a triangle whose edge
+# cross product is below util.TOL_ZERO = 1e-13 is "degenerate": see usable_at_extreme_scale).
+XSCALES = (1e-5, 1e12)
 OFFSETS = (0.0, 1e3)
 DELTA = {"native": 1e-4, "embree": 1e-3}
 DEFAULT_DIR = np.array([0.4395064455, 0.617598629942, 0.652231566745])
+XDIR = np.array([0.31, -0.77, 0.55]) / np.linalg.norm([0.31, -0.77, 0.55])
+# documented absolute constants the classes below are derived from
+TOL_MERGE = 1e-8          # constants.tol.merge: "closer than this is the same point"
+FORWARD_SLACK = 1e-6      # ray_triangle.ray_triangle_id: hits this far behind the origin are kept
+INT64_GRID_LIMIT = 9.2e10  # |x| * 1e8 leaves the int64 range (grouping.float_to_int)
+EMBREE_MAX_HITS = 20      # ray_pyembree.RayMeshIntersector.intersects_id(max_hits=20)
+FAR_FLOAT32 = 1e4         # origin farther than this many mesh sizes: float32 cannot place it
 
 
 def slabel(S):
-    return {1e-2: "1e-2", 1.0: "1", 1e2: "1e2"}.get(float(S), "%g" % S)
+    return {1e-5: "1e-5", 1e-2: "1e-2", 1.0: "1", 1e2: "1e2", 1e12: "1e12"}.get(float(S), "%g" % S)
 
 
 def olabel(off):
@@ -139,7 +170,11 @@ class MeshCase:
         import trimesh
 
         Vf = self.vertices()
-        m = trimesh.Trimesh(vertices=Vf.copy(), faces=self.F.copy(), process=False)
+        # extreme sizes: `mesh.ray` is the native engine (option use_embree=False), so that
+        # mesh.contains / signed_distance are judged on it; the embree engine is instantiated
+        # explicitly next to it as everywhere else
+        m = trimesh.Trimesh(vertices=Vf.copy(), faces=self.F.copy(), process=False,
+                            **({"use_embree": False} if self.extreme else {}))
         if self.edit is None:
             return m, Vf[self.F]
         self.primed_engines = self._prime(m, Vf)
@@ -211,6 +246,10 @@ class MeshCase:
     def sl(self):
         return slabel(self.S)
 
+    @property
+    def extreme(self):
+        return self.S in XSCALES
+
     def cls(self):
         return "S=%s:off=%s%s%s" % (self.sl, olabel(self.off), "" if self.edit is None else ":after_" + self.edit["kind"],
                                     ":degenerate_faces" if self.degen else "")
@@ -250,6 +289,45 @@ def _spike():
     if G.signed_volume6(V, F) < 0:
         F = F[:, ::-1].copy()
     return V, F
+
+
+def plate_stack(n=21, width=100, thick=6, gap=1):
+    """
+    `n` plates on top of each other (a heat sink, a stack of parts exported as one mesh): a line
+    along the stack crosses 2 n faces.  Plates are 3 % of the extent thick, so that points inside
+    them and rays through them keep the float32 margins of the embree engine.
+    """
+    return G.concat([G.box_int((width, width, thick), (0, 0, i * (thick + gap))) for i in range(n)])
+
+
+def touching_boxes(rng=None):
+    """
+    Two boxes that touch along a wall (an assembly exported as one mesh): closed, consistently
+    wound, winding number 0 / 1 everywhere off the surface; on the common wall two triangles lie
+    in each other's interior, so a ray through the wall crosses two triangles at one point.
+    """
+    if rng is None:
+        a, b, shift, axis = (2, 2, 2), (2, 2, 2), (0, 0), 0
+    else:
+        a = tuple(int(x) for x in rng.integers(2, 6, size=3))
+        b = tuple(int(x) for x in rng.integers(2, 6, size=3))
+        axis = int(rng.integers(3))
+        # partial overlap of the two walls (at least one unit in both directions)
+        shift = tuple(int(rng.integers(-(b[k] - 1), a[k])) for k in range(3) if k != axis)
+    origin = [0, 0, 0]
+    origin[axis] = a[axis]
+    for k, sh in zip([k for k in range(3) if k != axis], shift):
+        origin[k] = sh
+    return G.concat([G.box_int(a), G.box_int(b, tuple(origin))])
+
+
+def usable_at_extreme_scale(T):
+    """
+    The library documents a triangle whose edge cross product is below util.TOL_ZERO = 1e-13 as
+    degenerate (zero normal).  Meshes of the 1e-5 class keep every triangle 10x above that.
+    """
+    N = np.linalg.norm(np.cross(T[:, 1] - T[:, 0], T[:, 2] - T[:, 0]), axis=1)
+    return bool(N.min() >= 1e-12)
 
 
 def fixed_meshes():
@@ -351,7 +429,11 @@ RAYS_ONLY = ("thin_slab",)
 # length of the native engine: by the ray class): a zero-area face elsewhere in the mesh has no
 # part in them
 _ADVANCE_KEYS = ("gap=below_offset", "gap=tight", "sym=stuck_on_triangle", "class=origin_clip_dirlen_gt1",
-                 "class=parallel_test_dirlen_lt1")
+                 "class=parallel_test_dirlen_lt1", "gap=coincident", "gap=beyond_20_hits", "gap=over_20_crossings",
+                 "class=origin_beyond_float32", "class=crossing_behind_origin_within_abs_slack",
+                 "gap=within_abs_forward_slack", "gap=merge_grid_int64_overflow",
+                 "class=bounding_plane_face_pad_below_float_spacing", "gap=bounding_plane_face_pad_below_float_spacing",
+                 "region=coincident_faces", "gap=restart_rehits_triangle_just_left")
 
 
 class _DegenerateClassRun:
@@ -427,8 +509,24 @@ def make_rays(rng, mesh, S, n, T=None):
     shared = (tri[int(rng.integers(len(tri)))] * w[:, None]).sum(axis=0)
     for i in range(n):
         target = lo + (0.02 + 0.96 * rng.random(3)) * (hi - lo)
-        r = int(rng.integers(0, 11))
-        if r == 10:
+        r = int(rng.integers(0, 12))
+        along = None
+        if r == 11:
+            # straight at a face along its normal (an orthographic view of that face): on layered
+            # parts such a ray passes every layer
+            for _try in range(8):
+                f = int(rng.integers(len(tri)))
+                nrm = np.cross(tri[f, 1] - tri[f, 0], tri[f, 2] - tri[f, 0])
+                if np.linalg.norm(nrm) > 1e-9 * S * S:
+                    break
+            else:
+                nrm = np.array([0.0, 0.0, 1.0])
+            along = (tri[f] * rng.dirichlet((2.0, 2.0, 2.0))[:, None]).sum(axis=0)
+            d = -R.unit(R.unit(nrm) + rng.normal(size=3) * float(rng.choice([0.0, 0.01, 0.05])))
+            if rng.random() < 0.3:
+                d = -d
+            dcl = "face_normal"
+        elif r == 10:
             # a direction vector far shorter than 1 (difference of two nearby points, a velocity
             # in small units): the same ray as its unit direction
             if rng.random() < 0.35:
@@ -458,8 +556,16 @@ def make_rays(rng, mesh, S, n, T=None):
             d = R.unit(rng.normal(size=3)) * float(rng.choice([50.0, 2000.0]))
             dcl = "long"
         du = R.unit(d)
-        u = int(rng.integers(0, 10))
-        if u < 3:
+        if along is not None:
+            target = along
+        u = int(rng.integers(0, 11))
+        if u == 10:
+            # the usual "origin = target - direction * 1e7" of a parallel light / an orthographic
+            # camera: the origin is many mesh sizes away
+            o, ocl = target - du * S * float(rng.choice([1e5, 1e7])), "very_far"
+        elif along is not None and u < 8:
+            o, ocl = target - du * S * (0.8 + rng.random()), "outside"
+        elif u < 3:
             o, ocl = target, "inbox"
         elif u < 6:
             o, ocl = target - du * S * (0.8 + rng.random()), "outside"
@@ -488,6 +594,26 @@ def make_rays(rng, mesh, S, n, T=None):
     return O, D, oc, dc
 
 
+def ray_table(T, O, D, S):
+    """
+    rayref.ray_table for origins that may be millions of mesh sizes away: the oracle evaluates the
+    SAME line from a point of it next to the mesh (the edge-moment sign test multiplies two
+    vectors from the origin to the triangle, which loses the position of the line when the origin
+    is 1e7 sizes away) and shifts the distances back.
+    """
+    O = np.asarray(O, dtype=np.float64)
+    Du = R.unit(D)
+    Vt = np.asarray(T, dtype=np.float64).reshape(-1, 3)
+    c = (Vt.min(axis=0) + Vt.max(axis=0)) / 2.0
+    s = ((c[None] - O) * Du).sum(axis=1)
+    far = np.linalg.norm(O - c[None], axis=1) > 100.0 * S
+    s = np.where(far, s, 0.0)
+    tab = R.ray_table(T, O + Du * s[:, None], D)
+    tab["t"] = tab["t"] + s[:, None]
+    tab["far"] = np.linalg.norm(O - c[None], axis=1) / S
+    return tab
+
+
 def _group(iray, itri, loc=None):
     got = {}
     for k in range(len(iray)):
@@ -503,7 +629,7 @@ def check_rays(run, mc, mesh, T, O, D, oc=None, dc=None, engines=None, record=Tr
     m = len(O)
     oc = oc or ["replay"] * m
     dc = dc or ["replay"] * m
-    tab = R.ray_table(T, O, D)
+    tab = ray_table(T, O, D, S)
     Du = tab["D"]
     dlen = np.linalg.norm(D, axis=1)
     tolL = 1e-6 * S
@@ -534,10 +660,12 @@ def check_rays(run, mc, mesh, T, O, D, oc=None, dc=None, engines=None, record=Tr
     for ename, eng in engines:
         delta = DELTA[ename]
         keep, hit = R.classify_rays(tab, S, delta)
-        if ename == "embree":
-            # embree stops after max_hits=20
-            keep &= hit.sum(axis=1) <= 15
         pre = "ray engine=%s" % ename
+        # extreme sizes: the multi-hit loop of the embree engine advances the origin by 1e-2 /
+        # mesh.scale world units (1e3 at extent 1e-5) resp. by the floor of 1e-8 (a 1e-20th of the
+        # extent at 1e12): the findings (a) / (d) would only repeat themselves there.  embree is
+        # asked for first / single / any hits, which do not advance.
+        multi = not (mc.extreme and ename == "embree")
 
         def call(op, fn):
             try:
@@ -547,9 +675,11 @@ def check_rays(run, mc, mesh, T, O, D, oc=None, dc=None, engines=None, record=Tr
                               witness(0, ename, op, repr(e), "no exception") | {"origins": O.tolist(), "directions": D.tolist()})
                 return None
 
-        res_loc = call("location", lambda: eng.intersects_location(O.copy(), D.copy(), multiple_hits=True))
-        res_id = call("id", lambda: eng.intersects_id(O.copy(), D.copy(), multiple_hits=True, return_locations=False))
-        res_idl = call("id_locations", lambda: eng.intersects_id(O.copy(), D.copy(), multiple_hits=True, return_locations=True))
+        res_loc = call("location", lambda: eng.intersects_location(O.copy(), D.copy(), multiple_hits=True)) if multi else None
+        res_id = call("id", lambda: eng.intersects_id(O.copy(), D.copy(), multiple_hits=True, return_locations=False)) if multi else None
+        res_idl = call("id_locations", lambda: eng.intersects_id(O.copy(), D.copy(), multiple_hits=True, return_locations=True)) if multi else None
+        if not multi:
+            run.count("embree_multi_hit_not_asked_at_extreme_scale", m)
         res_single = call("id_single", lambda: eng.intersects_id(O.copy(), D.copy(), multiple_hits=False, return_locations=False))
         res_first = call("first", lambda: eng.intersects_first(O.copy(), D.copy()))
         res_any = call("any", lambda: eng.intersects_any(O.copy(), D.copy()))
@@ -622,14 +752,63 @@ def check_rays(run, mc, mesh, T, O, D, oc=None, dc=None, engines=None, record=Tr
             elif ename == "native" and dlen[i] < 1e-2 and len(idx):
                 run.count("rays_short_direction_judged_strictly")
 
-            def viol(key, what, case, _clip=clip, _par=par):
-                if _clip:
-                    key = "ray engine=native class=origin_clip_dirlen_gt1 sym=lost_or_wrong_hit scale=%s" % mc.sl
-                    what = "a crossing nearer to the origin than buffer_dist*|direction| is dropped by ray_bounds"
-                elif _par:
-                    key = "ray engine=native class=parallel_test_dirlen_lt1 sym=lost_or_wrong_hit scale=%s" % mc.sl
-                    what = ("a crossing is dropped as parallel because |direction . normal| <= 1e-5 is tested with "
-                            "the un-normalised direction (length < 1)")
+            # the forward test keeps plane hits up to 1e-6 BEHIND the origin, as an absolute
+            # distance.  Class (10x band): a triangle pierced by the line within 1e-5 behind the
+            # origin.  The general-position filter keeps pierced triangles 1e-3*extent away from the
+            # origin, so the class is empty for extents >= 1e-2 and is the rule at extent 1e-5.
+            tb = tab["t"][i][tab["pierce"][i]]
+            slack = bool(ename == "native" and ((tb < 0) & (tb >= -10 * FORWARD_SLACK)).any())
+            if slack:
+                run.count("rays_in_abs_forward_slack_class")
+            # the embree wrapper casts the origin to float32 in units of the mesh size / 100: the
+            # position of an origin farther away than ~1e4 mesh sizes across the ray is rounded by
+            # more than the general-position margin.  Generators: 40 sizes (strict) / 1e5, 1e7.
+            far32 = bool(ename == "embree" and tab["far"][i] >= FAR_FLOAT32)
+            if far32:
+                run.count("rays_embree_origin_beyond_float32")
+            elif tab["far"][i] >= FAR_FLOAT32:
+                run.count("rays_native_origin_very_far_judged_strictly")
+            # hits of one ray whose locations are closer than tol.merge are documented as ONE
+            # location (intersects_location returns unique locations on a 1e-8 grid): with a 10x
+            # band, a ray with two crossings 0 < gap < 1e-7 apart is not judged for its set of
+            # located hits (only reachable at extent 1e-5).  gap == 0 is the class `coincident`.
+            gaps_t = np.diff(ts) if len(ts) > 1 else np.zeros(0)
+            merge_band = bool(((gaps_t > 1e-9 * S) & (gaps_t < 10 * TOL_MERGE)).any())
+            hit_xyz = O[i][None] + Du[i][None] * ts[:, None]
+            overflow = bool(ename == "native" and len(ts) > 1 and np.abs(hit_xyz).max() > INT64_GRID_LIMIT / 10.0)
+
+            # ray_bounds pads the box of the clipped ray by 1e-5 (absolute).  Its ends are computed as
+            # origin + t * direction: where floats are spaced wider than the pad, the end misses the
+            # bounding plane it stands for by an ulp, and a face lying IN that plane (the ray's primary
+            # axis) is not a candidate.  Class (10x band): such a face is crossed ahead and the spacing
+            # of floats at the coordinates involved is above 1e-6.
+            pad = False
+            if ename == "native" and len(idx):
+                ax = int(np.abs(Du[i]).argmax())
+                tz = T[idx][:, :, ax]
+                flat = (np.ptp(tz, axis=1) == 0) & ((tz[:, 0] == lo[ax]) | (tz[:, 0] == hi[ax]))
+                mag = max(float(np.abs(O[i]).max()), float(np.abs(T).max()))
+                pad = bool(flat.any() and mag * 2.3e-16 >= 0.1 * 1e-5)
+                if pad:
+                    run.count("rays_in_bounding_plane_pad_class")
+
+            def viol(key, what, case, _slack=slack, _far32=far32, _pad=pad):
+                if _far32 and not any(x in key for x in ("gap=below_offset", "sym=stuck_on_triangle", "gap=coincident",
+                                                           "gap=beyond_20_hits", "gap=restart_rehits_triangle_just_left")):
+                    # (crossings lost by the multi-hit loop keep their own classes)
+                    key = "ray engine=embree class=origin_beyond_float32 sym=lost_or_wrong_hit scale=%s" % mc.sl
+                    what = ("the origin is cast to float32 in mesh-scaled coordinates: from more than ~1e4 mesh sizes "
+                            "away the ray hits a wrong triangle / misses")
+                elif _slack:
+                    key = "ray engine=native class=crossing_behind_origin_within_abs_slack sym=lost_or_wrong_hit scale=%s" % mc.sl
+                    what = ("a crossing up to 1e-6 (absolute) BEHIND the origin is reported / taken as the first hit: "
+                            "the slack of the forward test does not follow the size of the mesh")
+                elif _pad:
+                    key = "ray engine=native class=bounding_plane_face_pad_below_float_spacing sym=lost_or_wrong_hit scale=%s" % mc.sl
+                    what = ("a face lying in a bounding plane of the mesh is pruned by the r-tree query: the 1e-5 pad of "
+                            "ray_bounds is below the spacing of floats at these coordinates")
+                # (the rays of the classes origin_clip_dirlen_gt1 / parallel_test_dirlen_lt1 - fixed by
+                #  0b40093 / 4058b62 - are judged strictly again: they are only counted above)
                 run.violation(key, what, case)
 
             def judge_set(op, got):
@@ -647,16 +826,51 @@ def check_rays(run, mc, mesh, T, O, D, oc=None, dc=None, engines=None, record=Tr
                                   "a triangle is reported twice for one ray",
                                   witness(i, ename, op, tris, exp))
                 gs = set(tris)
+                located = op == "location"
+                if located and ename == "native" and merge_band:
+                    run.skip("two crossings of one ray closer than 10 x tol.merge: the set of unique locations is not judged")
+                    return
                 for tmiss in sorted(expset - gs):
                     k = exp.index(tmiss)
                     gcls = "first" if k == 0 else "na"
-                    if ename == "embree" and k > 0:
+                    # the triangle is crossed at the very point where the ray crosses another one
+                    # (coincident walls of two touching solids)
+                    twin = bool((np.abs(ts - ts[k]) <= 1e-9 * S).sum() > 1)
+                    if ename == "embree" and twin:
+                        # (unless the crossing before the pair is closer than the advance distance
+                        #  anyway: then it is the gap class of finding (a))
+                        before = ts[ts < ts[k] - 1e-9 * S]
+                        gcls = "coincident"
+                        if len(before) and gap_class(float(ts[k] - before.max()), eoff) == "below_offset":
+                            gcls = "below_offset"
+                    elif ename == "embree" and k > 0:
                         gcls = gap_class(float(ts[k] - ts[k - 1]), eoff)
                         if gcls is None:
                             run.skip("embree missed hit with gap inside the 10x band around the advance offset: not judged")
                             continue
+                        elif gcls == "above_offset" and len(tris) == EMBREE_MAX_HITS:
+                            # the loop over the crossings ended because it had run max_hits times
+                            # (exactly 20 reports for this ray)
+                            gcls = "beyond_20_hits"
+                        elif gcls == "above_offset" and any(e in gs for e in exp[:k]):
+                            # finding (d) when the engine does not repeat the triangle it is stuck on:
+                            # ask the engine itself for the first hit from where the loop restarts
+                            # after the last crossing it did report - if that is the triangle just
+                            # left, the advance was lost in float32 and the loop could not go on
+                            j = max(q for q in range(k) if exp[q] in gs)
+                            try:
+                                again = int(eng.intersects_first((O[i] + Du[i] * (ts[j] + eoff))[None], Du[i][None])[0])
+                            except Exception:  # noqa
+                                again = -2
+                            if again == exp[j]:
+                                gcls = "restart_rehits_triangle_just_left"
                     elif ename == "embree":
                         gcls = "first"
+                    elif twin and located:
+                        gcls = "coincident"
+                    elif overflow and located:
+                        # all coordinates beyond 9.2e10 round to the same int64 on the 1e-8 grid
+                        gcls = "merge_grid_int64_overflow"
                     viol("%s op=%s sym=missed_hit scale=%s gap=%s" % (pre, op, mc.sl, gcls),
                                   "a triangle crossed through its interior ahead of the origin is not reported",
                                   witness(i, ename, op, sorted(gs), exp) | {"t_expected": ts.tolist()})
@@ -741,18 +955,82 @@ def check_rays(run, mc, mesh, T, O, D, oc=None, dc=None, engines=None, record=Tr
 
 def line_gaps(T, P, direction, S, delta):
     """
-    For the line through each point along +-direction: general position flag and the smallest
-    distance between consecutive crossings (the point itself counts as a crossing position).
+    For the line through each point along +-direction: general position flag, the smallest
+    distance between consecutive crossings (the point itself counts as a crossing position), and
+    the classes of the line that the known mechanisms are keyed by (see line_class).
     """
     tab = R.ray_table(T, P, np.tile(direction, (len(P), 1)))
     ok = (tab["edge"] >= delta * S).all(axis=1)
     ok &= ~((tab["pierce"]) & (np.abs(tab["dn"]) < 1e-3)).any(axis=1)
-    gaps = np.full(len(P), np.inf)
-    for i in range(len(P)):
-        ts = np.sort(np.concatenate([tab["t"][i][tab["pierce"][i]], [0.0]]))
+    n = len(P)
+    gaps = np.full(n, np.inf)
+    info = {"gap_distinct": np.full(n, np.inf), "coincident": np.zeros(n, bool), "most_one_way": np.zeros(n, int),
+            "merge_band": np.zeros(n, bool), "within_slack": np.zeros(n, bool), "overflow": np.zeros(n, bool),
+            "pad": np.zeros(n, bool)}
+    du = R.unit(direction)
+    # faces lying in a bounding plane of the mesh across the primary axis of the test direction
+    ax = int(np.abs(du).argmax())
+    Vt = T.reshape(-1, 3)
+    tz = T[:, :, ax]
+    in_plane = (np.ptp(tz, axis=1) == 0) & ((tz[:, 0] == Vt[:, ax].min()) | (tz[:, 0] == Vt[:, ax].max()))
+    wide_spacing = max(float(np.abs(P).max()), float(np.abs(T).max())) * 2.3e-16 >= 0.1 * 1e-5
+    for i in range(n):
+        info["pad"][i] = bool(wide_spacing and (tab["pierce"][i] & in_plane).any())
+        tc = np.sort(tab["t"][i][tab["pierce"][i]])
+        ts = np.sort(np.concatenate([tc, [0.0]]))
         if len(ts) > 1:
-            gaps[i] = float(np.diff(ts).min())
-    return ok, gaps
+            dd = np.diff(ts)
+            gaps[i] = float(dd.min())
+            dc = np.diff(tc)
+            same = dc <= 1e-9 * S
+            info["coincident"][i] = bool(same.any())
+            # smallest gap between two DIFFERENT positions (the point included)
+            ddd = dd[dd > 1e-9 * S]
+            if len(ddd):
+                info["gap_distinct"][i] = float(ddd.min())
+            info["merge_band"][i] = bool(((dc > 1e-9 * S) & (dc < 10 * TOL_MERGE)).any())
+            info["most_one_way"][i] = int(max((tc > 0).sum(), (tc < 0).sum()))
+            info["within_slack"][i] = bool((np.abs(tc) <= 10 * FORWARD_SLACK).any())
+            xyz = P[i][None] + du[None] * tc[:, None]
+            info["overflow"][i] = bool(max((tc > 0).sum(), (tc < 0).sum()) > 1 and np.abs(xyz).max() > INT64_GRID_LIMIT / 10.0)
+    return ok, gaps, info
+
+
+def line_class(run, info, gaps, i, ename, eoff):
+    """
+    Class of the containment test line of point i in the key (`gap=`), None: not judged.
+
+    embree  tight              two different crossing positions (or the point and a crossing) closer
+                               than 10 x the advance distance of the multi-hit loop (finding (a))
+            coincident         two triangles crossed at one point, the other gaps clear
+            over_20_crossings  more than max_hits = 20 crossings in one of the two directions
+            clear              none of these
+    native  within_abs_forward_slack   a crossing within 10 x 1e-6 (absolute) of the point
+            bounding_plane_face_pad_below_float_spacing  the line crosses a face lying in a bounding
+                               plane of the mesh where floats are spaced wider than a tenth of ray_bounds' pad
+            merge_grid_int64_overflow  two crossings in one direction whose coordinates exceed 9.2e9
+            coincident / na
+    """
+    if ename == "embree":
+        if gap_class(float(info["gap_distinct"][i]), eoff) != "above_offset":
+            return "tight"
+        if info["coincident"][i]:
+            return "coincident"
+        if info["most_one_way"][i] > EMBREE_MAX_HITS:
+            return "over_20_crossings"
+        return "clear"
+    if info["within_slack"][i]:
+        return "within_abs_forward_slack"
+    if info["merge_band"][i]:
+        run.skip("containment test line with two crossings closer than 10 x tol.merge (one location by the documented grid): not judged")
+        return None
+    if info["pad"][i]:
+        return "bounding_plane_face_pad_below_float_spacing"
+    if info["overflow"][i]:
+        return "merge_grid_int64_overflow"
+    if info["coincident"][i]:
+        return "coincident"
+    return "na"
 
 
 def make_points(rng, mesh, T, S, n):
@@ -765,7 +1043,25 @@ def make_points(rng, mesh, T, S, n):
     # faces with a normal (a zero-area face has no "above" and "below")
     proper = np.nonzero(L2 > 1e-9 * S * S)[0]
     for i in range(n):
-        r = int(rng.integers(0, 12))
+        r = int(rng.integers(0, 14))
+        if r >= 12:
+            # half way between two consecutive crossings of a line through the mesh (inside a thin
+            # wall / layer, in a gap): lines along the containment test directions, along a face
+            # normal, and random ones
+            k = int(rng.integers(4))
+            if k == 0 and len(proper):
+                dline = Nn[int(proper[int(rng.integers(len(proper)))])]
+            else:
+                dline = (DEFAULT_DIR, XDIR, R.unit(rng.normal(size=3)))[k - 1 if k else 2]
+            through = lo + (0.1 + 0.8 * rng.random(3)) * (hi - lo)
+            tab = R.ray_table(T, through[None], dline[None])
+            tc = np.sort(tab["t"][0][tab["pierce"][0]])
+            if len(tc) >= 2:
+                j = int(rng.integers(len(tc) - 1))
+                P[i] = through + R.unit(dline) * (tc[j] + tc[j + 1]) / 2.0
+                pc.append("between_crossings")
+                continue
+            r = 0
         if r < 4:
             P[i] = c + (rng.random(3) - 0.5) * (hi - lo) * float(rng.choice([1.0, 1.3, 2.5]))
             pc.append("random")
@@ -811,18 +1107,21 @@ def check_contains(run, mc, mesh, T, P, pc=None, engines=None, record=True):
     eoff = embree_offset(mesh_scale)
     mdict = mc.to_dict()
     engines = engines or _engines(run, mc, mesh)
+    if mc.extreme:
+        # (containment on the embree engine counts crossings with the multi-hit loop: see check_rays)
+        engines = [e for e in engines if e[0] != "embree"]
     routes = [(ename, ename, eng.contains_points, None) for ename, eng in engines]
     default_engine = "embree" if type(mesh.ray).__module__.endswith("ray_pyembree") else "native"
     routes.append(("mesh.contains", default_engine, mesh.contains, None))
     # explicit direction: no retry branch, the direction is an input
-    xdir = R.unit(np.array([0.31, -0.77, 0.55]))
+    xdir = XDIR
     for ename, eng in engines:
         routes.append((ename + ":direction", ename, (lambda pts, e=eng: ray_util.contains_points(e, pts, check_direction=xdir)), xdir))
 
     for route, ename, fn, direction in routes:
         delta = DELTA[ename]
         margin = 10 * delta * S
-        ok_line, gaps = line_gaps(T, P, DEFAULT_DIR if direction is None else direction, S, delta)
+        ok_line, gaps, info = line_gaps(T, P, DEFAULT_DIR if direction is None else direction, S, delta)
         try:
             got = np.asarray(fn(P.copy()))
         except Exception as e:  # noqa
@@ -843,12 +1142,11 @@ def check_contains(run, mc, mesh, T, P, pc=None, engines=None, record=True):
             if not ok_line[i]:
                 run.skip("containment test line not in general position")
                 continue
-            if ename == "embree":
-                g = gap_class(float(gaps[i]), eoff)
-                gcls = "clear" if g == "above_offset" else "tight"
-            else:
-                gcls = "na"
+            gcls = line_class(run, info, gaps, i, ename, eoff)
+            if gcls is None:
+                continue
             if record:
+                run.state("containment_line_class", (ename, gcls))
                 run.case("contains:%s:%s:%s:%s" % (route, pc[i], "in" if inside[i] else "out", mc.cls()), T, P[i])
                 run.count("contains_judged_%s" % route)
                 run.state("winding_number", int(wni[i]))
@@ -1026,7 +1324,7 @@ def check_proximity(run, mc, mesh, T, P, pc=None, record=True, judge_sign=True):
             solid = (np.abs(wn - wni) < 1e-6) & np.isin(wni, (0.0, 1.0))
             default_engine = "embree" if type(mesh.ray).__module__.endswith("ray_pyembree") else "native"
             delta = DELTA[default_engine]
-            ok_line, gaps = line_gaps(T, P, DEFAULT_DIR, S, delta)
+            ok_line, gaps, info = line_gaps(T, P, DEFAULT_DIR, S, delta)
             for i in range(n):
                 if ambiguous[i]:
                     continue
@@ -1045,19 +1343,31 @@ def check_proximity(run, mc, mesh, T, P, pc=None, record=True, judge_sign=True):
                     run.violation("proximity fn=signed_distance sym=magnitude scale=%s" % mc.sl,
                                   "|signed distance| is not the minimum distance over all triangles",
                                   wit(i, "signed_distance", float(sd[i]), float(dmin[i])))
-                if dmin[i] < 10 * delta * S or not solid[i]:
+                # (documented: "points within tol.merge of the surface will have POSITIVE distance";
+                #  10 x that band is wider than the margin only at extent 1e-5)
+                if dmin[i] < max(10 * delta * S, 10 * TOL_MERGE) or not solid[i]:
                     run.skip("signed distance sign not judged (near surface or winding number not in {0,1})")
                     continue
                 region = "face" if int(reg[i, arg[i]]) == 6 and (d[i] <= dmin[i] + 1e-4 * S).sum() == 1 else "edge_or_vertex"
-                if region != "face" and not ok_line[i]:
+                att = d[i] <= dmin[i] + 1e-9 * S
+                back_to_back = False
+                if att.sum() > 1 and not (reg[i][att] == 6).any():
+                    with np.errstate(divide="ignore", invalid="ignore"):
+                        na = R.tri_normals(T[att])[0]
+                    back_to_back = bool(np.nanmin(na @ na.T) < -0.999)
+                if att.sum() > 1 and ((reg[i][att] == 6).any() or back_to_back):
+                    # the closest point lies in the interior of one triangle AND on another one: walls
+                    # of two solids that touch (the tie goes to the face whose normal looks at the point)
+                    region = "coincident_faces"
+                if region == "edge_or_vertex" and not ok_line[i]:
                     run.skip("signed distance test line not in general position")
                     continue
-                if region == "face":
+                if region in ("face", "coincident_faces"):
                     gcls = "na"  # sign comes from the face normal, no ray involved
-                elif default_engine == "embree":
-                    gcls = "clear" if gap_class(float(gaps[i]), eoff) == "above_offset" else "tight"
                 else:
-                    gcls = "na"
+                    gcls = line_class(run, info, gaps, i, default_engine, eoff)
+                    if gcls is None:
+                        continue
                 run.state("signed_distance_class", (region, "in" if wni[i] == 1 else "out"))
                 want_positive = wni[i] == 1.0
                 if (sd[i] > 0) != want_positive:
@@ -1114,6 +1424,11 @@ def run_mesh_case(run, mc, n_rays, n_pts, history=None, degenerate=None):
     except Exception as e:  # noqa
         run.inconclusive("could not build mesh %s: %r" % (mc.tag, e))
         return
+    if mc.S == 1e-5 and not usable_at_extreme_scale(T):
+        run.skip("mesh of extent 1e-5 with a triangle within 10x of the documented zero-area threshold: not judged")
+        return
+    if mc.extreme:
+        history, degenerate = False, False
     if mc.degen and noise_normal_faces(T).any():
         run.skip("mesh with a zero-area face whose cross product is rounding noise near util.TOL_ZERO (normal documented as arbitrary): not judged")
         return
@@ -1163,11 +1478,73 @@ def run_mesh_case(run, mc, n_rays, n_pts, history=None, degenerate=None):
         run_mesh_case(run, md, max(30, n_rays // 2), max(16, n_pts // 2), history=rng.random() < 0.25)
 
 
+def rotation_to(v):
+    """A rotation that takes the z axis to the direction v."""
+    v = R.unit(v)
+    a = np.cross(v, [1.0, 0.0, 0.0] if abs(v[0]) < 0.9 else [0.0, 1.0, 0.0])
+    a = R.unit(a)
+    b = np.cross(v, a)
+    return np.stack([a, b, v], axis=1)
+
+
+def round4_cases(run, n_rays, n_pts, until):
+    """
+    Input classes of round 4, asked first in every run: layered parts (more than 20 crossings
+    on one line, also along the two containment test directions), solids that touch along a
+    wall, and the extreme sizes 1e-5 / 1e12.
+    """
+    rng = run.rng
+    idx = 1000
+    todo = []
+    stack = plate_stack()
+    for S in (1e2, 1.0):
+        for rot in ("none", "default_dir", "xdir", "random"):
+            todo.append(("plate_stack", stack, S, 0.0, rot))
+    for S in SCALES:
+        todo.append(("touching_boxes", touching_boxes(), S, 0.0, "none"))
+        todo.append(("touching_boxes", touching_boxes(rng), S, (0.0, 1e3)[int(rng.integers(2))], "random"))
+        todo.append(("touching_boxes", touching_boxes(rng), S, 0.0, "none"))
+    for S in XSCALES:
+        todo.append(("box", G.box_int((2, 3, 4), (-1, -2, 1)), S, 0.0, "none"))
+        todo.append(("octahedron", G.octahedron(), S, 0.0, "random"))
+        todo.append(("l_prism", G.l_prism(), S, 0.0, "none"))
+        todo.append(("tetra", G.tetra(rng), S, 0.0, "none"))
+        todo.append(("nested_cavity", G.concat([G.box_int((6, 6, 6), (-3, -3, -3)), G.invert(*G.box_int((2, 2, 2), (-1, -1, -1)))]), S, 0.0, "none"))
+        todo.append(("hull", G.hull_int(rng, 7), S, 0.0, "random"))
+    order = rng.permutation(len(todo))
+    # (every class early in every run: one of each kind first, the rest in random order)
+    first = []
+    for want in (("plate_stack", 1e2), ("touching_boxes", 1.0), ("box", 1e-5), ("box", 1e12), ("touching_boxes", 1e2),
+                 ("l_prism", 1e-5), ("l_prism", 1e12)):
+        for j in order:
+            if (todo[j][0], todo[j][2]) == want and j not in first:
+                first.append(int(j))
+                break
+    for j in first + [int(j) for j in order if int(j) not in first]:
+        idx += 1
+        if not run.mine(idx):
+            continue
+        tag, (V, F), S, off, rot = todo[j]
+        if rot == "random":
+            rmat = random_rotation(rng)
+        elif rot in ("default_dir", "xdir"):
+            # the stack axis a few degrees off the direction containment is tested along
+            rmat = rotation_to((DEFAULT_DIR if rot == "default_dir" else XDIR) + rng.normal(size=3) * 0.03)
+        else:
+            rmat = None
+        run.count("round4_cases")
+        run_mesh_case(run, MeshCase(tag, V, F, S, off, rmat), n_rays, n_pts)
+        if run.out_of_time(until):
+            run.count("round4_cases_cut_short")
+            break
+
+
 def workload(run):
     rng = run.rng
     quick = run.tier == "quick"
     n_rays = 90 if quick else 160
     n_pts = 48 if quick else 90
+    round4_cases(run, n_rays, n_pts, 0.33)
     idx = 0
     # (1) fixed catalogue x scale x offset, axis-aligned as built (rotation: second pass)
     fixed = fixed_meshes()
@@ -1184,11 +1561,11 @@ def workload(run):
                         continue
                     mc = MeshCase(tag, V, F, S, off, random_rotation(rng) if rotated else None)
                     run_mesh_case(run, mc, n_rays, n_pts)
-                    if run.out_of_time(0.6 if not rotated else 0.75):
+                    if run.out_of_time(0.72 if not rotated else 0.84):
                         break
-                if run.out_of_time(0.6 if not rotated else 0.75):
+                if run.out_of_time(0.72 if not rotated else 0.84):
                     break
-            if run.out_of_time(0.6 if not rotated else 0.75):
+            if run.out_of_time(0.72 if not rotated else 0.84):
                 run.count("catalogue_cut_short")
                 break
     # (2) random meshes until the budget is used
